@@ -70,7 +70,7 @@ RENDER_NOTE = ('Trusted: Coq kernel, gen_tables.py, extraction, harness (render_
 CHECKS.update({
     'C01': dict(
         technique='Coq proof at chunk-stream level: origin-labelled marker machine refines the executable model; conservation (every non-blank chunk of the page emitted exactly once, in order) for ANY contiguous opcode list, through tokeniser, spacer cap, customisation and marker placement + char-for-char extracted-model correspondence with _htmldiff + document-level observers (text, separation, structure; alone = all)',
-        text='Theorems (partial at document level): for all element trees, url rules, spacer caps and every contiguous opcode list, the chunk stream of the insertions (deletions) view minus marker tags equals the flattened new (old) page up to blank chunks; tokenising, the spacer cap and token customisation conserve every chunk; text chunks never contain "<" so no text becomes markup; include=all computes the same single-sided streams as include=insertions/deletions. The model (flatten, tokenise, customise, cap, comparators, difflib, merge) is tied char-for-char to _htmldiff on generated and hand-picked pairs; observers check text, word separation and block/br/img/control/script structure of each view against its page on the real html_diff_render, including pages beyond the spacer cap.',
+        text='Theorems (partial at document level): for all element trees, url rules, spacer caps and every contiguous opcode list, the chunk stream of the insertions (deletions) view minus marker tags equals the flattened new (old) page up to blank chunks; tokenising, the spacer cap and token customisation conserve every chunk; text chunks never contain "<" so no text becomes markup; stated on the text itself (C01_view_text_is_page_text): the text chunks of the view carry, in order, exactly the non-whitespace characters of every text and tail of the page tree; include=all computes the same single-sided streams as include=insertions/deletions. The model (flatten, tokenise, customise, cap, comparators, difflib, merge) is tied char-for-char to _htmldiff on generated and hand-picked pairs; observers check text, word separation and block/br/img/control/script structure of each view against its page on the real html_diff_render, including pages beyond the spacer cap.',
         note=RENDER_NOTE, design='5/C01'),
     'C02': dict(
         technique='Coq proof at chunk-stream level: the combined stream is a sequence of whole items in which every group of the new side (inserted or unchanged) and every deleted group occurs exactly once and everything else is a tag - by an invariant over all 25 branches of the reconciliation state machine (buffers hold whole items; deleted-side buffer holds only marked groups), its loop, the two splits of unchanged runs and the fold over ANY opcode list; grouping and tokenising conserve every chunk + char-for-char extracted-model correspondence + document-level observer',
